@@ -179,7 +179,7 @@ struct SinkState {
 const MY_PAUSES: &[&str] = &["q.registered", "q.loop", "q.tfc.before", "q.tfc.after", "q.wg.before", "q.wg.after", "q.processed", "r.check", "r.checked", "r.recompute", "tfc.item",
     "x.before", "x.executed", "x.g.start", "x.g.dirty", "c.up.before", "c.g.start", "c.g.cleaned", "p.after", "cq.start", "cq.before_submit", "sc.up.before", "sc.up.after", "sc.unwired", "sc.mid",
     "sc.before_submit", "si.start", "si.mid", "bp.up.before", "bp.g.start", "bp.g.removed", "bp.start", "bp.item", "bp.before_done", "in.set.snap", "in.set.g.start", "in.set.g.locked",
-    "in.ref.item", "in.ref.g.start", "in.ref.g.locked", "in.commit.g.start", "in.commit.g.taken", "in.commit.propagated", "is.bumped"];
+    "in.ref.item", "in.ref.g.start", "in.ref.g.locked", "in.commit.g.start", "in.commit.g.taken", "in.commit.propagated", "is.wait"];
 fn cur_tid(st: &mut SinkState) -> u64 {
     match tokio::task::try_id() { None => 0, Some(id) => { let n = st.tids.len() as u64 + 1; *st.tids.entry(id.to_string()).or_insert(n) } }
 }
@@ -742,6 +742,10 @@ async fn run_fault<V: Variant>(case: &Case, target: usize, fault: &Fault, kv: &M
             fail!("C05:later-panic:set-input-after-commit", "panic hook: {h}");
             // the guarded continuation died with that panic: its `guarded(entered != completed)` entry has the same cause
             for f in out.fails.iter_mut() { if f.0 == "C05:quiescence:guarded" { f.0 = "C05:quiescence:guarded:set-input-after-commit".into(); } }
+        } else if h.contains("WriteBuffer dropped while still active") && out.cut_label.is_some() {
+            // the active batch was dropped by a JoinSet child that the runtime aborted after the caller's drop: the same
+            // event as a panic of the drop itself
+            fail!(format!("C05:drop-panic:{}", out.cut_label.clone().unwrap_or_default().split('@').next().unwrap()), "panic hook: {h}");
         } else { fail!("C05:later-panic", "panic hook: {h}"); }
     }
     out.detached = s.st.lock().unwrap().guard_detach;
@@ -926,7 +930,40 @@ fn child_case<V: Variant>(case: &Case, max_cuts: u64, seed: u64, only: Option<(u
     emit("E".into());
 }
 
+/// F12 without any hook: a TrackedEngine is alive (shared phase lock), `input_session()` is polled once (it waits for
+/// the exclusive lock) and dropped — what `tokio::time::timeout(d, engine.input_session())` does when it fires.
+fn scenario_f12_natural() {
+    install_panic_hook();
+    let rt = tokio::runtime::Builder::new_current_thread().enable_all().build().unwrap();
+    rt.block_on(async {
+        let sh = Arc::new(Shared::default());
+        let mut p = Program::default();
+        p.parse_node_line("node 0 in 0 c 0");
+        p.parse_node_line("node 1 nm -1 r 0");
+        *sh.program.write().unwrap() = p;
+        let kv = MemKv::default();
+        let engine = DbCfg::make(&sh, &kv).await;
+        { let mut s = engine.input_session().await; let _ = s.set_input(In(0), 1).await; s.commit().await; }
+        let te = engine.clone().tracked().await;
+        println!("query 1 = {}", query_key(&sh, &te, 1).await);
+        let mut fut = Box::pin(engine.input_session());
+        let pending = futures::poll!(&mut fut).is_pending();
+        println!("input_session() polled once while a TrackedEngine is alive: pending = {pending}");
+        let r = std::panic::catch_unwind(AssertUnwindSafe(move || drop(fut)));
+        println!("dropping it: {}", match &r { Ok(()) => "no panic".to_string(), Err(p) => format!("PANIC: {}", payload_str(p)) });
+        drop(te);
+        { let mut s = engine.input_session().await; let _ = s.set_input(In(0), 2).await; s.commit().await; }
+        let te = engine.clone().tracked().await;
+        println!("after one more session query 1 = {} (in memory)", query_key(&sh, &te, 1).await);
+        drop(te);
+        println!("shutting down (the later batches are held back behind the missing epoch) …");
+        drop(engine);
+        println!("shutdown returned");
+    });
+}
+
 fn main() {
+    if std::env::args().any(|x| x == "--scenario-f12-natural") { SINK.set(Arc::new(CutSink::default())).ok(); scenario_f12_natural(); return; }
     let a = args();
     let rest = a.rest.clone();
     let flag = |n: &str| rest.iter().position(|x| x == n).map(|i| rest[i + 1].clone());
